@@ -446,6 +446,15 @@ def set_method(self, recv, s, m, e, st, spec):
         other = args[0]
         o2 = set_of(self, st, other)
         if o2 is None:
+            if isinstance(other, Opt) and isinstance(other.val, SList):
+                if not spec:
+                    self.oblige(st, z3.Not(other.isnone), f"not-None@{e.lineno}:issuperset", "exception-freedom", e.lineno,
+                                "the iterable given to issuperset is not None")
+                other = other.val
+            if isinstance(other, SList) and len(other.elems.cs) == 1 and other.elems.cs[0].sort().range() == es:
+                # issuperset(iterable): every element of the list is a member
+                k = V.fresh("k", I)
+                return z3.ForAll(k, z3.Implies(z3.And(0 <= k, k < other.length), s["mem"][other.elems.cs[0][k]]))
             raise EngineError("issuperset of a non-set")
         x = V.fresh("x", es)
         return z3.ForAll(x, z3.Implies(o2["mem"][x], s["mem"][x]))
@@ -1286,6 +1295,9 @@ def ctor_model(self, e, st, spec):
         if s is not None:
             return alloc(st, {"$cls": "SetUnit" if s["elem"] == UnitDT else "SetStr", "mem": s["mem"], "n": s["n"],
                               "seq": s["seq"], "idx": s["idx"]})
+        if isinstance(v, Opt) and isinstance(v.val, SList):
+            self.oblige(st, z3.Not(v.isnone), f"not-None@{e.lineno}:SortedSet", "exception-freedom", e.lineno, "SortedSet(None) raises TypeError")
+            v = v.val
         if isinstance(v, SList) and len(v.elems.cs) == 1 and v.elems.cs[0].sort().range() == R:
             # SortedSet(list of strings): the set of the list's elements (with the model's enumeration invariant)
             new = fresh_set(V.fresh_name("setof"), R)
